@@ -54,7 +54,7 @@ pub struct Workload {
 
 /// Corpus over the full catalogue: users(id, age, city, score, vip, zip), orders(id, user_id,
 /// amount, qty, status, note, disc), items(order_id, price, n, kind), regions(city, factor, zone).
-pub const CORPUS: [&str; 40] = [
+pub const CORPUS: &[&str] = &[
     "SELECT * FROM users",
     "SELECT id, age + 1 AS a1, upper(city) AS c FROM users WHERE age > 30",
     "SELECT u.city, o.amount FROM users AS u JOIN orders AS o ON u.id = o.user_id",
@@ -95,6 +95,21 @@ pub const CORPUS: [&str; 40] = [
     "SELECT -age AS neg, age / 2 AS half, age - score AS d FROM users",
     "SELECT count(DISTINCT city) AS dc, sum(DISTINCT age) AS da FROM users",
     "SELECT rand() AS r, id FROM users",
+    // shapes with several items in what could be an unordered collection
+    "SELECT * FROM users AS a NATURAL JOIN users AS b",
+    "SELECT * FROM orders AS a JOIN orders AS b USING (id, user_id)",
+    "SELECT a.id, b.qty FROM orders AS a NATURAL LEFT JOIN orders AS b",
+    "WITH x AS (SELECT id, city FROM users), y AS (SELECT id, city, age FROM users), z AS (SELECT city, zone FROM regions) SELECT * FROM x NATURAL JOIN y NATURAL JOIN z",
+    "SELECT u.id, u.id AS id2, o.id AS oid FROM users AS u JOIN orders AS o ON u.id = o.user_id",
+    "SELECT * FROM users JOIN orders ON users.id = orders.user_id JOIN items ON items.order_id = orders.id",
+    "SELECT city, vip, count(*), sum(age), avg(score), min(age), max(score) FROM users GROUP BY city, vip",
+    "SELECT count(*), count(*), sum(age) FROM users",
+    "SELECT age + 1, age + 1, age * 2 FROM users",
+    "SELECT * FROM (SELECT * FROM users) AS t1 JOIN (SELECT * FROM users) AS t2 ON t1.id = t2.id",
+    "SELECT status, qty, count(*) AS c FROM orders GROUP BY status, qty ORDER BY status, qty",
+    "SELECT * FROM users AS a FULL JOIN regions AS b ON a.city = b.city",
+    "SELECT * FROM orders AS a NATURAL JOIN (SELECT id, user_id, status FROM orders) AS b",
+    "SELECT x.city, x.c + y.c AS t FROM (SELECT city, count(*) AS c FROM users GROUP BY city) AS x JOIN (SELECT city, count(*) AS c FROM regions GROUP BY city) AS y ON x.city = y.city",
 ];
 
 pub fn generate(seed: u64, run: u64) -> Workload {
